@@ -83,6 +83,14 @@ theorem startDispatching_frame (s : St) (cfg : Cfg) :
     intro y hy; simp [St.spawn, St.setStatus, St.setProg, hy]
   · exact ⟨fun _ _ => ⟨rfl, rfl⟩, rfl, rfl, rfl, rfl, rfl, rfl, rfl, Or.inr ⟨rfl, rfl⟩⟩
 
+/-- everything `queue.put` leaves alone (it wakes the dispatcher / the receive helper if they wait on the queue) -/
+theorem put_frame (s : St) (m : Nat) :
+    (s.put m).trace = s.trace ∧ (s.put m).prog = s.prog ∧ (∀ y, y ≠ .D → y ≠ .V → (s.put m).status y = s.status y) ∧
+    (s.put m).cstage = s.cstage ∧ (s.put m).closed = s.closed ∧ (s.put m).qClosed = s.qClosed ∧ (s.put m).vres = s.vres ∧
+    ((s.put m).status .V = .cancelled → s.status .V = .cancelled) := by
+  unfold St.put St.wakeGetter
+  split <;> split <;> simp_all [St.setStatus]
+
 /-! ### the close machinery, specified -/
 
 /-- what the close body may emit, given the continuation of the closer -/
